@@ -681,11 +681,15 @@ FASTOR_INLINE __m128i _mm_mul_epi32x(__m128i a, __m128i b)
 
 #ifdef FASTOR_SSE2_IMPL
 FASTOR_INLINE __m128i _mm_mul_epi64(__m128i _a, __m128i _b) {
-    __m128i out;
-   for (FASTOR_INDEX i=0; i<2; i++) {
-       ((int64_t*)&out)[i] = (((int64_t*)&_a)[i])*(((int64_t*)&_b)[i]);
-   }
-    return out;
+    // go through memory with proper stores/loads - accessing the registers
+    // through int64_t* violates strict aliasing and is miscompiled at -O2
+    uint64_t a[2], b[2];
+    _mm_storeu_si128((__m128i*)a, _a);
+    _mm_storeu_si128((__m128i*)b, _b);
+    for (FASTOR_INDEX i=0; i<2; i++) {
+        a[i] *= b[i];
+    }
+    return _mm_loadu_si128((const __m128i*)a);
 }
 #endif
 
